@@ -551,6 +551,7 @@ func (rn *c20Runner) runCase(out *vh.Out, cs *c20Case, withPrint bool, tag strin
 		}
 		out.Corr(op, cls)
 		out.Stat("outcome=" + strings.Join(strings.Fields(cls)[:2], " "))
+		out.Stat("bygen=" + tag + "/err")
 		return
 	}
 	var b strings.Builder
@@ -558,6 +559,7 @@ func (rn *c20Runner) runCase(out *vh.Out, cs *c20Case, withPrint bool, tag strin
 	rn.showNodes(cs, res.nodes, &b)
 	out.Corr(op, b.String())
 	out.Stat("outcome=ok")
+	out.Stat("bygen=" + tag + "/ok")
 	out.Stat("ok.nodes=" + c20Bucket(c20Count(res.nodes)))
 	depth := c20Depth(res.nodes)
 	out.Stat("ok.depth=" + c20Bucket(depth))
@@ -747,6 +749,9 @@ var c20Fixed = []string{
 	"(s) {\n a\n}\nimport s\n",
 	"(s) {\n import s\n}\nimport s\n",
 	"(s)\nimport s\n",
+	"import s\n(s) {\n import s\n}\n",
+	"import a\n(a) {\n import b\n}\n(b) {\n import a\n}\n",
+	"x {\n import s\n}\n(s) {\n y {\n  import t\n }\n}\n(t) {\n z 1 2\n}\n",
 	"(s) x {\n}\n",
 	"x {\n (s) {\n }\n}\n",
 	"import\n",
